@@ -81,6 +81,13 @@ PROGRAMS = {
         ["add_dmm", "dmm_0", ["ramp", 6, S("e0", lo=-10, hi=-5), S("e1", lo=-5, hi=0)]],
         ["add", "l", ["cp", 8, S("a0", lo=0), S("d0"), 4.07], "no-delay"],
         ["add_dmm", "dmm_0", ["const", 5, S("e2", hi=0)], "wait-for-all"]]),
+    "dmm_first": dict(device="mock", prog=[
+        ["config_dmap", {"q0": 1.0, "q1": 0.5, "q2": 0.25}, "dmm_0"],
+        ["declare", "l", "rydberg_local", "q1"], ["declare", "g", "rydberg_global"],
+        ["add", "l", ["cp", 8, S("a0", lo=0), S("d0"), 0.4]],
+        ["add_dmm", "dmm_0", ["const", 6, S("e0", hi=0)]],
+        ["target", "l", "q2"], ["add", "l", ["cp", 5, S("a1", lo=0), S("d1"), 0.9]],
+        ["add", "g", ["cp", 7, S("a2", lo=0), S("d2"), 1.3], "no-delay"]]),
     "xy_slm": dict(device="mock", prog=[
         ["declare", "mw", "mw_global"], ["config_slm", ["q0", "q2"]],
         ["delay", "mw", 3],
@@ -98,6 +105,13 @@ PROGRAMS = {
         # no-delay keeps g the longest channel: the per-atom view of the padding of a channel that is still in
         # EOM mode beyond its own end is not specified by the property
         ["add", "l", ["cp", 5, S("a1", lo=0, hi=10), S("d1", lo=-20, hi=20), 0.66], "no-delay"]]),
+    # a short detuned delay between two EOM pulses of different phase, the second one added with no-delay
+    "eom_nodelay": dict(device="virt", prog=[
+        ["declare", "g", "ryd_glob"],
+        ["enable_eom", "g", 2.0, 0.0, -1.0],
+        ["add_eom", "g", 12, 0.7], ["delay", "g", 8],
+        ["add_eom", "g", 12, 2.1, None, {"protocol": "no-delay"}], ["delay", "g", 8], ["delay", "g", 8],
+        ["add_eom", "g", 8, 0.2, None, {"protocol": "no-delay"}]]),
     "eom_closed": dict(device="virt", prog=[
         ["declare", "g", "ryd_glob"],
         ["enable_eom", "g", 2.0, 0.0, -1.0], ["disable_eom", "g"],
